@@ -21,7 +21,61 @@ import (
 // variable that no injector uses and that is ill-formed.
 func genC19() *rapid.Generator[*Spec] {
 	return rapid.Custom(func(t *rapid.T) *Spec {
-		switch rapid.SampledFrom([]string{"wf", "wf", "c05", "c06", "c08", "c09", "c09", "c11", "badset", "badset", "badset"}).Draw(t, "family") {
+		switch rapid.SampledFrom([]string{"wf", "wf", "c05", "c06", "c08", "c09", "c09", "c11", "badset", "badset", "badset", "chain", "chain"}).Draw(t, "family") {
+		case "chain":
+			// the conventional layout: every package has `var Set`, each including the next package's
+			s := &Spec{ImportAlias: map[int]string{}, Pkgs: []Pkg{{Name: "app"}}}
+			x := &mutCtx{t: t, s: s}
+			np := x.intn(2, 4, "chainpkgs")
+			for i := 1; i < np; i++ {
+				s.Pkgs = append(s.Pkgs, Pkg{Dir: fmt.Sprintf("layer%d", i), Name: fmt.Sprintf("layer%d", i)})
+			}
+			var prev *Type
+			for i := np - 1; i >= 0; i-- {
+				ti := Named(addFreshStruct(s, i, fmt.Sprintf("L%d", i)))
+				it := Item{Kind: "func", Pkg: i, Name: fmt.Sprintf("NewL%d", i), Out: ti}
+				if prev != nil {
+					it.Params = []*Type{prev}
+				}
+				if x.pct(40, "extinput") {
+					// an input nothing provides: shows up as a required input of the group
+					it.Params = append(it.Params, Named(addFreshStruct(s, i, fmt.Sprintf("In%d", i))))
+				}
+				pi := addItem(s, it)
+				args := []Ref{RItem(pi)}
+				if prev != nil {
+					// the set of the next layer was created in the previous iteration: it is the last set
+					args = append(args, RSet(len(s.Sets)-1))
+				}
+				name := "Set"
+				if x.pct(20, "othername") {
+					name = fmt.Sprintf("Set%d", i)
+				}
+				s.Sets = append(s.Sets, Set{Pkg: i, Name: name, Args: args, AliasOf: -1})
+				prev = ti
+			}
+			in := Injector{Name: "Init", Out: prev, Panic: true, Args: []Ref{RSet(len(s.Sets) - 1)}}
+			// unsatisfied inputs become injector parameters
+			m := NewModel(s)
+			s.SetName("x")
+			r := m.EvalSet(s.Sets[len(s.Sets)-1].Args, nil)
+			seenIn := map[string]bool{}
+			for _, k := range r.Keys {
+				for _, d := range m.Deps(r.Map[k].Src) {
+					if _, ok := r.Map[d]; !ok && !seenIn[d] {
+						seenIn[d] = true
+						for _, p := range s.Items[r.Map[k].Src.Item].Params {
+							if m.K(p) == d {
+								in.Params = append(in.Params, Param{Name: fmt.Sprintf("in%d", len(in.Params)), T: p})
+							}
+						}
+					}
+				}
+			}
+			s.Injectors = []Injector{in}
+			s.Note = "C19 chain of conventional sets"
+			refreshPlan(s)
+			return s
 		case "c05":
 			return genC05().Draw(t, "p")
 		case "c06":
@@ -68,6 +122,37 @@ func genC19() *rapid.Generator[*Spec] {
 			return s
 		}
 		s := GenWF(WFOpts{NoFaults: true, Names: 60}).Draw(t, "p")
+		if rapid.IntRange(0, 99).Draw(t, "conventionalsets") < 50 {
+			// the conventional `var Set = wire.NewSet(...)` in every package
+			used := map[string]bool{}
+			for si := range s.Sets {
+				name := "Set"
+				for n := 2; used[fmt.Sprintf("%d/%s", s.Sets[si].Pkg, name)]; n++ {
+					name = fmt.Sprintf("Set%d", n)
+				}
+				clash := false
+				for _, d := range s.Decls {
+					if d.Pkg == s.Sets[si].Pkg && d.Name == name {
+						clash = true
+					}
+				}
+				for _, it := range s.Items {
+					if it.Kind == "func" && it.Pkg == s.Sets[si].Pkg && it.Name == name {
+						clash = true
+					}
+				}
+				for _, in := range s.Injectors {
+					if s.Sets[si].Pkg == 0 && in.Name == name {
+						clash = true
+					}
+				}
+				if clash || strings.Contains(s.Extra, " "+name+" ") {
+					continue
+				}
+				used[fmt.Sprintf("%d/%s", s.Sets[si].Pkg, name)] = true
+				s.Sets[si].Name = name
+			}
+		}
 		s.Note = strings.TrimSpace(s.Note + " C19 wf")
 		return s
 	})
